@@ -79,8 +79,8 @@ func vTarget(label string, allowUnmapped bool) string {
 // namespaces and jump targets are symbolic strings; the code under test decides
 // what to compare.
 //
-// Restrictions (recorded as outside the claim): an END node carries no alias
-// (validation ignores it while the run-time would match it); namespaces are
+// Restrictions (recorded as outside the claim): no jump targets the alias of an END node
+// (validation ignores that alias while the run-time would match it); namespaces are
 // symbolic only when symNs is set (verifC02_Namespace), otherwise a fixed mix.
 func vFlow(label string, n int, base int) []FlowNode { return vFlowNs(label, n, base, false) }
 
@@ -92,7 +92,9 @@ func vFlowNs(label string, n int, base int, symNs bool) []FlowNode {
 		node := &flow[i]
 		node.FilterName = vNodeName(label + ".filter")
 		node.FilterAlias = vName(label + ".alias")
-		verifAssume(node.FilterName != BuiltInFilterEnd || node.FilterAlias == "")
+		// an END node may carry an alias (the field is optional on every node) as long as no
+		// jump targets that alias: validation ignores the alias of END nodes while the run-time
+		// would match it - that combination stays outside, see below
 		if symNs {
 			node.Namespace = vName(label + ".ns")
 		} else {
@@ -103,6 +105,14 @@ func vFlowNs(label string, n int, base int, symNs bool) []FlowNode {
 			"r2": vTarget(label+".target2", true),
 		}
 		node.filter = &vFilter{id: base + i}
+	}
+	for i := 0; i < n; i++ {
+		if flow[i].FilterName != BuiltInFilterEnd || flow[i].FilterAlias == "" {
+			continue
+		}
+		for j := 0; j < n; j++ {
+			verifAssume(flow[j].JumpIf["r1"] != flow[i].FilterAlias && flow[j].JumpIf["r2"] != flow[i].FilterAlias)
+		}
 	}
 	return flow
 }
